@@ -139,6 +139,29 @@ class Variant:
                 self.truncated = True
             err = p.stderr.decode(errors="replace")
             status = {98: "timeout", 97: "oom"}.get(p.returncode, "crash")
+            if status == "timeout" and getattr(self, "confirmed_timeouts", 0) < 3:
+                # (after three confirmed ones the machine is not merely busy: further ones are taken as they are)
+                # a parse that did not return within the limit is a verdict only when it is confirmed: the same process segment
+                # (the parses since the last restart, so that whatever they left behind is there again) is run once more with
+                # twelve times the limit; on a machine that was merely busy the parse now returns and its observation is used
+                rq2, ob2 = rq + ".confirm", ob + ".confirm"
+                with open(rq2, "w") as f:
+                    json.dump(dict(req, plan=plan[:done + 1], timeout_ms=timeout_ms * 12), f)
+                with open(ob2, "w") as f:
+                    for i_, ln_ in enumerate(open(ob)):
+                        if i_ < skip:
+                            f.write(ln_)
+                p2 = subprocess.run([self.bin, rq2, ob2, str(skip)], stdout=subprocess.DEVNULL, stderr=subprocess.PIPE, env=ENV)
+                lines2 = open(ob2).read().splitlines()
+                os.remove(rq2)
+                os.remove(ob2)
+                if p2.returncode == 0 and len(lines2) == done + 1:
+                    with open(ob, "a") as f:
+                        f.write(lines2[done] + "\n")
+                    self.unconfirmed_timeouts = getattr(self, "unconfirmed_timeouts", 0) + 1
+                    skip = done + 1
+                    continue
+                self.confirmed_timeouts = getattr(self, "confirmed_timeouts", 0) + 1
             if status == "crash":
                 if "stack overflow" in err or "stack exceeds" in err:
                     status = "stackoverflow"
